@@ -48,16 +48,22 @@ def bboxAdd (b : Option BBox) (p : Pt) : Option BBox :=
   | none => some { minx := p.x, miny := p.y, maxx := p.x, maxy := p.y }
   | some b => some { minx := rmin b.minx p.x, miny := rmin b.miny p.y, maxx := rmax b.maxx p.x, maxy := rmax b.maxy p.y }
 
+/-- the two events `process_polygon` creates for the line `s -> e` when the arena holds `n` events:
+    `e1 < e2` (both still right events, linked to each other) decides which one becomes the left event -/
+def mkPair (n : Nat) (s e : Pt) (isSubject : Bool) (contourId : Nat) (isExt : Bool) : Ev × Ev :=
+  let v1 : EvView := { point := s, left := false, otherPt := some e, isSubject := isSubject }
+  let v2 : EvView := { point := e, left := false, otherPt := some s, isSubject := isSubject }
+  let e2Left := cmpView v1 v2 == .lt
+  ({ point := s, left := !e2Left, other := some (n + 1), contourId := contourId, isSubject := isSubject, isExteriorRing := isExt },
+   { point := e, left := e2Left, other := some n, contourId := contourId, isSubject := isSubject, isExteriorRing := isExt })
+
 def processLine (isSubject : Bool) (contourId : Nat) (isExt : Bool)
     (st : FQ × Option BBox) (s e : Pt) : FQ × Option BBox :=
   if s = e then st else
   let (fq, bb) := st
   let n := fq.arena.size
-  let e1 : Ev := { point := s, other := some (n + 1), contourId := contourId, isSubject := isSubject, isExteriorRing := isExt }
-  let e2 : Ev := { point := e, other := some n, contourId := contourId, isSubject := isSubject, isExteriorRing := isExt }
+  let (e1, e2) := mkPair n s e isSubject contourId isExt
   let a := (fq.arena.push e1).push e2
-  let a := if cmpEv a n (n + 1) == .lt then a.modify (n + 1) (fun ev => { ev with left := true })
-           else a.modify n (fun ev => { ev with left := true })
   let bb := bboxAdd bb s
   let h := Heap.push (evLe a) fq.heap n
   let h := Heap.push (evLe a) h (n + 1)
@@ -80,21 +86,23 @@ structure FillOut where
   cbbox : Option BBox
 deriving Repr, Inhabited
 
+/-- one subject polygon: a new contour id, exterior ring flagged as such -/
+def subjStep (acc : Nat × FQ × Option BBox) (p : Poly) : Nat × FQ × Option BBox :=
+  let cid := acc.1 + 1
+  let r := processPolygon true cid true (acc.2.1, acc.2.2) p
+  (cid, r.1, r.2)
+
+/-- one clipping polygon: under `Difference` it keeps the last contour id and is not an exterior ring -/
+def clipStep (op : Op) (acc : Nat × FQ × Option BBox) (p : Poly) : Nat × FQ × Option BBox :=
+  let exterior := op != .difference
+  let cid := if exterior then acc.1 + 1 else acc.1
+  let r := processPolygon false cid exterior (acc.2.1, acc.2.2) p
+  (cid, r.1, r.2)
+
 def fillQueue (subject clipping : MPoly) (op : Op) : FillOut :=
-  let (cid, fq, sb) := subject.foldl
-    (fun (acc : Nat × FQ × Option BBox) p =>
-      let (cid, fq, sb) := acc
-      let cid := cid + 1
-      let (fq, sb) := processPolygon true cid true (fq, sb) p
-      (cid, fq, sb)) (0, {}, none)
-  let (_, fq, cb) := clipping.foldl
-    (fun (acc : Nat × FQ × Option BBox) p =>
-      let (cid, fq, cb) := acc
-      let exterior := op != .difference
-      let cid := if exterior then cid + 1 else cid
-      let (fq, cb) := processPolygon false cid exterior (fq, cb) p
-      (cid, fq, cb)) (cid, fq, none)
-  { fq := fq, sbbox := sb, cbbox := cb }
+  let r1 := subject.foldl subjStep (0, {}, none)
+  let r2 := clipping.foldl (clipStep op) (r1.1, r1.2.1, none)
+  { fq := r2.2.1, sbbox := r1.2.2, cbbox := r2.2.2 }
 
 /-! ### the sweep state -/
 
